@@ -9,6 +9,7 @@
   input, e.g. through the crash images of the `stage` component).
 -/
 import StsModel.Generated.Orders
+import StsModel.Generated.Consts
 
 namespace Sts.Orders
 open Sts.Generated
@@ -71,5 +72,26 @@ theorem writeJSON_order_matches : order_writeJSON = ["writefile:lock", "ren:lock
     (model: the single primitive `renWaitFinal`). -/
 theorem move_order_matches :
     order_Move = ["ren:->-", "copyfile", "rm:-", "ren:lock>-"] := by decide
+
+end Sts.Orders
+
+/-! ## constants the model's numbers come from -/
+namespace Sts.Orders
+open Sts.Generated
+
+/-- staging extensions, cache ages, validator count and the numeric order of the receiver
+    states (`>= stateFinalized`, `> stateReceived` in the code; `FState.num` in the model). -/
+theorem stage_consts_match :
+    consts_stage = [("compExt", "\".cmp\""), ("partExt", "\".part\""), ("fullExt", "\".full\""),
+      ("waitExt", "\".wait\""), ("cacheAgeLogged", "time.Hour*24"), ("cacheAgeLoaded", "time.Hour*1"),
+      ("cacheCnt", "1000"), ("nValidators", "24"), ("stateUnknown", "?"), ("stateReceived", "0"),
+      ("stateValidated", "1"), ("stateFailed", "2"), ("stateFinalized", "3"), ("stateLogged", "4")] := by
+  decide
+
+/-- payload slack (10 % of the size), lock extension, confirmation codes of the poll. -/
+theorem other_consts_match :
+    consts_payload = [("binFluff", "0.1")] ∧ consts_fileutil = [("LockExt", "\".lck\"")] ∧
+    consts_confirm = [("ConfirmNone", "0"), ("ConfirmFailed", "1"), ("ConfirmPassed", "2"),
+      ("ConfirmWaiting", "3")] := by decide
 
 end Sts.Orders
